@@ -120,6 +120,29 @@ mod private {
         if d12 < l {
             cx.count("pairs below plain Levenshtein");
         }
+        if !deep && cells.is_empty() && c1.len().max(c2.len()) > 20 && cx.rng.chance(1, 4) {
+            // long words (beyond the initial capacity, after growth): a sample of prefix cells
+            let k1: Vec<CharClass> = c1.iter().map(|c| class_of(*c)).collect();
+            let k2: Vec<CharClass> = c2.iter().map(|c| class_of(*c)).collect();
+            let d_again = DL.with(|d| d.distance(&t1.view(0), &t2.view(0)));
+            if d_again != d12 {
+                errs.push("repeat-differs".into());
+            }
+            for _ in 0..12 {
+                let i = cx.rng.below(c1.len() + 1);
+                let j = cx.rng.below(c2.len() + 1);
+                let cell = DL.with(|d| d.dists.borrow().get(i + 1, j + 1));
+                let p1 = word_text(&c1[..i], &k1[..i]);
+                let p2 = word_text(&c2[..j], &k2[..j]);
+                let dp = DamerauLevenshtein::new().distance(&p1.view(0), &p2.view(0));
+                cx.eval();
+                if dp != cell {
+                    errs.push(format!("prefix-cell({},{}): matrix {} vs own {}", i, j, cell, dp));
+                    break;
+                }
+            }
+            cx.count("long pairs with sampled prefix cells");
+        }
         if deep {
             let k1: Vec<CharClass> = c1.iter().map(|c| class_of(*c)).collect();
             let k2: Vec<CharClass> = c2.iter().map(|c| class_of(*c)).collect();
@@ -244,6 +267,9 @@ mod private {
             if w[0].max(w[1]) > 20 {
                 cx.count("direct calls beyond capacity 20");
                 cx.key(hparts(&[&s(&c1), &s(&c2)]));
+            }
+            if cx.want_sample() && w[0].max(w[1]) > 20 {
+                cx.sample(|| json!({"stream": "direct", "word1": s(&c1), "word2": s(&c2), "lengths": [w[0], w[1]], "fresh_instance": fresh_dl, "distance": d, "similarity": j}));
             }
             if !(d >= 0.0) || !(j >= 0.0 && j <= 1.0) {
                 cx.fail("nonsense-value-from-unchecked-path", json!({"word1": s(&c1), "word2": s(&c2), "distance": d, "similarity": j}));
@@ -388,6 +414,9 @@ impl Prims {
                 cx.count("store-level searches");
                 if hits.iter().any(|h| h.1.chars().count() > 20) {
                     cx.key(hparts(&[lang, &format!("{:?}", recs), &q]));
+                    if cx.want_sample() && q.chars().count() > 20 {
+                        cx.sample(|| json!({"stream": "store", "lang": lang, "records": recs.len(), "query": q, "hits": hits.len()}));
+                    }
                 }
             }
         }
@@ -413,15 +442,15 @@ impl Prop for Prims {
     }
     fn streams(&self) -> Vec<Stream> {
         match self.0 {
-            Which::Distance => vec![Stream::new("exhaustive", 341, 1555), Stream::new("random", 8000, 80000)],
-            Which::Jaccard => vec![Stream::new("exhaustive", 341, 1365), Stream::new("random", 8000, 80000)],
-            Which::Index => vec![Stream::new("stores", 1600, 16000), Stream::new("corpus", 32, 320)],
-            Which::Unchecked => vec![Stream::new("direct", 8000, 80000).asan(8000).miri(6), Stream::new("store", 1600, 16000).asan(1600).miri(3)],
+            Which::Distance => vec![Stream::new("exhaustive", 341, 1555), Stream::new("random", 24000, 240000)],
+            Which::Jaccard => vec![Stream::new("exhaustive", 341, 1365), Stream::new("random", 32000, 320000)],
+            Which::Index => vec![Stream::new("stores", 6400, 64000), Stream::new("corpus", 96, 960)],
+            Which::Unchecked => vec![Stream::new("direct", 24000, 240000).asan(24000).miri(6), Stream::new("store", 6400, 64000).asan(6400).miri(3)],
         }
     }
     fn floors(&self) -> Vec<(&'static str, u64, u64)> {
         match self.0 {
-            Which::Distance => vec![("exhaustive pairs", 100000, 2000000), ("prefix cells compared", 1000000, 20000000), ("pairs where a discount lowered the distance", 10000, 100000), ("random pairs beyond capacity 20", 500, 5000), ("hook matrix growths", 3, 3), ("hook matrix max size", 50, 50)],
+            Which::Distance => vec![("exhaustive pairs", 100000, 2000000), ("prefix cells compared", 1000000, 20000000), ("pairs where a discount lowered the distance", 10000, 100000), ("random pairs beyond capacity 20", 500, 5000), ("long pairs with sampled prefix cells", 200, 2000), ("hook matrix growths", 3, 3), ("hook matrix max size", 50, 50)],
             Which::Jaccard => vec![("exhaustive pairs", 100000, 1500000), ("pairs with partial overlap", 20000, 200000), ("pairs beyond the initial capacity of 20", 500, 5000), ("hook jaccard accesses", 100000, 1000000)],
             Which::Index => vec![("prepare calls", 5000, 50000), ("capped calls", 500, 5000), ("calls with ties at the cut", 100, 1000), ("size 0", 300, 3000), ("corpus prepare calls", 200, 2000)],
             Which::Unchecked => vec![("direct distance/similarity calls", 20000, 200000), ("direct calls beyond capacity 20", 5000, 50000), ("store-level searches", 5000, 50000), ("hook matrix accesses", 1000000, 10000000), ("hook matrix growths", 3, 3), ("hook matrix max size", 50, 50), ("hook counter accesses", 10000, 100000), ("hook cost accesses", 100000, 1000000), ("hook jaccard accesses", 10000, 100000)],
